@@ -103,9 +103,9 @@ CHECKS["C13"] = ("model_checking",
     TRUST, "DESIGN.md §4 C13")
 CHECKS["C15"] = ("exploration",
     "TLC enumerates ordered node tuples (all permutations) with data sampled from integer polynomials; TLC (Val_C15) checks degree bound, "
-    "reproduction and recovery of the source polynomial with a per-case conditioning bound; the design model of hermite() (HermiteDD: "
-    "divided-difference table, Horner assembly, cleaning) is model-checked over exact rationals and every real hermite() call is replayed "
-    "through it over doubles bit for bit (Trace_HermiteDD)",
+    "reproduction and recovery of the source polynomial with a per-case conditioning bound; the design models of hermite() (HermiteDD: "
+    "divided-difference table, Horner assembly, cleaning) and lagrange() (LagrangeNeville: Neville's table of polynomials) are model-checked "
+    "over exact rationals and every real call is replayed through them over doubles bit for bit (Trace_HermiteDD, Trace_LagrangeNeville)",
     "Exhaustive on a half-integer lattice (exact data), seeded up to 8 nodes; uniqueness is checked by comparing with the sampled polynomial.",
     TRUST, "DESIGN.md §4 C15")
 CHECKS["C19"] = ("exploration",
